@@ -76,9 +76,14 @@ def remap_curie_prefixes(converter: Converter, remapping: Mapping[str, str]) -> 
                 new_prefix,
                 new_record,
             )
-        elif old in intersection:
+        elif old in intersection and any(
+            target == old and converter.synonym_to_prefix.get(source) is not None
+            for source, target in remapping.items()
+        ):
+            # ``old`` is handed over to the record of another applicable pair,
+            # everything else this record was known by is kept
             record.prefix_synonyms = sorted(
-                set(record.prefix_synonyms).difference({old, new_prefix})
+                set(record.prefix_synonyms).union({record.prefix}).difference({old, new_prefix})
             )
             record.prefix = new_prefix
         else:
